@@ -1,6 +1,6 @@
 """Generic driver of the ObjectSet-level checks (C03, C04, C06, C09, C11)."""
 import glob, json, os
-import vlib, setlib as sl, setgen, phasecheck as pc
+import vlib, setlib as sl, setgen, phasecheck as pc, phaselib as pl
 
 IMPORTS = "From PKOCorr Require Import SetMonitors PhaseMonitors."
 
@@ -37,6 +37,112 @@ def set_stage(run, pid, scs, judge, identity, extra_identities=()):
     return results
 
 
+def fault_stage(run, pid, tier, seed, results, judge, identity, extra_identities=()):
+    """API faults and lost responses inside a controller pass (crash points): every request of a sample of the
+    local-phase scenarios fails without effect ("err") or takes effect with its response lost ("lost").  The model
+    has no faults, so only the monitors are judged: a request that failed without effect is no request of the pass
+    (dropped), a lost response is a request that took effect."""
+    import random
+    rng = random.Random(seed * 6151 + 3)
+    cands = []
+    for sc, obs, r in results:
+        if sc.get("phases") or not obs.get("requests") or any(ph["class"] for s_ in sc["sets"] for ph in s_["phases"]):
+            continue   # scenarios with delegated phases are not part of this stage
+        for i, q in enumerate(obs["requests"]):
+            for kind in ("err", "lost"):
+                cands.append((sc, i, kind, q.split()[0] in ("get", "list")))
+    rng.shuffle(cands)
+    n = 400 if tier == "quick" else 5000
+    reads = [c for c in cands if c[3]][: n // 2]
+    writes = [c for c in cands if not c[3]][: n - len(reads)]
+    scs = [dict(sc, faults={str(i): kind}) for sc, i, kind, _ in reads + writes]
+    outs = vlib.run_harness("objectset", scs)
+    terms, idx = [], []
+    for i, (sc, o) in enumerate(zip(scs, outs)):
+        if "obs" not in o:
+            run.violation("corr:%s/harness error or panic" % pid, {"correspondence": "harness", "scenario": sc, "out": o}, False)
+            continue
+        obs = o["obs"]
+        kind = list(sc["faults"].values())[0]
+        evs = []
+        for e in obs["events"]:
+            if e["kind"] == "member":
+                m = e["member"]
+                if m.get("fault") == "err":
+                    continue
+                if m.get("fault") == "lost":
+                    e = dict(e, member=dict(m, res="ok" if m["post"] is not None or m["verb"] == "delete" else "notfound"))
+            elif e.get("err") == "InjectedFault":
+                if kind == "err":
+                    continue
+                e = dict(e, ok=True, err="")
+            evs.append(e)
+        try:
+            terms.append(sl.c_case(sc, dict(obs, events=evs)))
+            idx.append(i)
+        except pl.Unrepresentable as ex:
+            run.violation("corr:%s/observation outside the model's event language: %s" % (pid, ex),
+                          {"correspondence": "SetCorr event language (fault stage)", "scenario": sc, "impl": obs}, False)
+    res, logs = vlib.judge_cases(pid + "f", sl.IMPORTS + "\n" + IMPORTS, judge, terms, 2 + len(extra_identities))
+    for l in logs:
+        run.violation("corr:%s/coq-eval" % pid, {"correspondence": "coq evaluation failed", "log": l}, False)
+    nf = 0
+    for i, r in zip(idx, res):
+        if r is None:
+            continue
+        nf += 1
+        sc, obs = scs[i], outs[i]["obs"]
+        run.classes.add(("set-fault", list(sc["faults"].values())[0], obs["res"], tuple(e["kind"] for e in obs["events"])))
+        if not r[1]:
+            run.violation(identity + " (after an API fault inside the pass)", {"scenario": sc, "impl": obs}, True)
+    run.cov["fault_stage"] = {"evaluations": nf, "reads_faulted": len(reads), "writes_faulted": len(writes),
+                              "judged": "monitors only (the model has no faults); failed-without-effect requests dropped, lost responses count as requests"}
+    return nf
+
+
+def history_stage(run, pid, tier, seed, scs, judge, identity, extra_identities=(), passes=3):
+    """Consecutive passes of the same ObjectSet (fresh controller and cache each): whatever a pass leaves in the
+    API objects (status, condition texts, finalizers) is the only state carried; passes 2..n are judged like the
+    first one, from the abstract state the previous pass left."""
+    import random
+    rng = random.Random(seed * 31337 + 1)
+    pick = [sc for sc in scs if not any(ph["class"] for s_ in sc["sets"] for ph in s_["phases"])]
+    rng.shuffle(pick)
+    pick = pick[: 150 if tier == "quick" else 2500]
+    outs = vlib.run_harness("objectset", [dict(sc, passes=passes) for sc in pick])
+    terms, meta = [], []
+    for sc, o in zip(pick, outs):
+        if "obs" not in o:
+            run.violation("corr:%s/harness error or panic" % pid, {"correspondence": "harness", "scenario": dict(sc, passes=passes), "out": o}, False)
+            continue
+        prev = o["obs"]
+        for i, nxt in enumerate(prev.get("more") or []):
+            sci = dict(sc, store=prev["post"], sets=prev["sets"], phases=prev.get("phases", []), next_rv=prev["next_rv"], next_uid=prev["next_uid"])
+            try:
+                terms.append(sl.c_case(sci, nxt))
+                meta.append((sc, i + 2, sci, nxt))
+            except pl.Unrepresentable as ex:
+                run.violation("corr:%s/observation outside the model's event language: %s" % (pid, ex),
+                              {"correspondence": "SetCorr event language (history stage)", "scenario": dict(sc, passes=passes), "impl": nxt}, False)
+            prev = nxt
+    res, logs = vlib.judge_cases(pid + "h", sl.IMPORTS + "\n" + IMPORTS, judge, terms, 2 + len(extra_identities))
+    for l in logs:
+        run.violation("corr:%s/coq-eval" % pid, {"correspondence": "coq evaluation failed", "log": l}, False)
+    nh = 0
+    for (sc, k, sci, obs), r in zip(meta, res):
+        if r is None:
+            continue
+        nh += 1
+        run.classes.add(("set-history", k, obs["res"], tuple(e["kind"] for e in obs["events"])))
+        if not r[1]:
+            run.violation(identity + " (pass %d of consecutive passes)" % k, {"scenario": sci, "history_from": dict(sc, passes=passes), "impl": obs}, True)
+        elif not r[0]:
+            run.violation("corr:%s/ObjectSet controller model and implementation differ (pass %d of consecutive passes)" % (pid, k),
+                          {"correspondence": "SetCorr.agree", "scenario": sci, "history_from": dict(sc, passes=passes), "impl": obs}, False)
+    run.cov["history_stage"] = {"evaluations": nh, "passes": passes}
+    return nh
+
+
 def set_check(run, pid, tier, seed, replay, n_quick, n_thorough, judge, identity, rule, phase_judge=None, phase_scs=None, extra_identities=()):
     run.assumptions += [
         "pass-level atomicity with cache reads as fresh as the store",
@@ -65,7 +171,8 @@ def set_check(run, pid, tier, seed, replay, n_quick, n_thorough, judge, identity
     # phase objects): about a fifth of the local-only worlds
     scs = corpus(pid) + setgen.gen(seed, n, salt=pid) + setgen.gen_delegated(seed, n // 5, salt=pid + "d")
     res = set_stage(run, pid, scs, judge, identity, extra_identities)
-    n = len(res)
+    n = len(res) + fault_stage(run, pid, tier, seed, res, judge, identity, extra_identities)
+    n += history_stage(run, pid, tier, seed, scs, judge, identity, extra_identities)
     samples = [{"scenario": s, "impl": {k: o[k] for k in ("res", "events")}} for s, o, _ in res[:1]]
     if phase_judge:
         pres = pc.run_cases(run, phase_scs, phase_judge, 2)
@@ -88,3 +195,17 @@ def set_check(run, pid, tier, seed, replay, n_quick, n_thorough, judge, identity
                               "(stale / current status, paused mismatch, stale status.remotePhases uid, deleting, foreign controller, "
                               "other class, terminating namespace); distinct = (level, lifecycle/flavor, outcome, request kinds in order)")
     run.cov["samples"] = samples
+
+
+def controller_stage(run, pid, tier, seed, judge, identity, n_quick=400, n_thorough=6000, replay_sc=None):
+    """C01 / C02 at the controller level: generated worlds (a third of them handovers with two declared previous
+    revisions) through the real (Cluster)ObjectSet controller, its member requests judged by the phase-level monitors."""
+    if replay_sc is not None:
+        scs = [replay_sc]
+    else:
+        n = n_quick if tier == "quick" else n_thorough
+        scs = setgen.gen(seed, n - n // 3, salt=pid + "c") + setgen.gen_handover(seed, n // 3, salt=pid + "h")
+    res = set_stage(run, pid, scs, judge, identity)
+    run.cov["evaluations"] = run.cov.get("evaluations", 0) + len(res)
+    run.cov["controller_stage"] = {"evaluations": len(res), "judge": judge}
+    return res
